@@ -5,6 +5,7 @@ observer reads on MolecularOrbitals and Shell; algebraic invariants after every 
 """
 
 import copy
+import os
 
 import numpy as np
 
@@ -80,6 +81,8 @@ def gen_mo_trace(rng):
         return n if rng.random() < 0.85 else max(0, n + rng.choice([-1, 1, 2]))
     if rng.random() < 0.7:
         kw["occs"] = _occ(rng, maybe_len(norb))
+        if rng.random() < 0.08:
+            kw["occs"] = {"narrow": rng.choice(["float32", "float16"]), "data": kw["occs"]}
     if rng.random() < 0.5:
         n = maybe_len(norb)
         rows = nbasis * (2 if kind == "generalized" else 1)
@@ -136,8 +139,12 @@ def gen_shell_trace(rng):
             out.append("c" if r < 0.5 else "p" if r < 0.95 else rng.choice(["x", "C", ""]))
         return out
     angs = [rng.randint(0, 9) for _ in range(ncon)]
+    if rng.random() < 0.15:
+        angs = [rng.choice([7, 8, 9, 9]) for _ in range(ncon)]  # many functions per shell
     kw = {"icenter": rng.randint(0, 3), "angmoms": angs, "kinds": kinds_for(angs),
           "exponents": [round(10.0 / (i + 1), 3) for i in range(nexp)], "coeffs": {"mat": [nexp, ncon]}}
+    if rng.random() < 0.15:
+        kw["angmoms"] = {"narrow": rng.choice(["int8", "int16", "uint8"]), "data": angs}
     r = rng.random()
     if r < 0.1:
         kw["angmoms"] = angs + [1]
@@ -171,6 +178,8 @@ def gen_shell_trace(rng):
 
 
 def mk(v):
+    if isinstance(v, dict) and "narrow" in v:
+        return np.array(v["data"], dtype=v["narrow"])  # a caller-supplied array of a narrow dtype
     if isinstance(v, dict) and "mat" in v:
         r, c = v["mat"]
         return np.arange(r * c, dtype=float).reshape(r, c) * 0.1 + 0.05
@@ -214,7 +223,13 @@ def mo_invariants(mo, trace, k, out):
 
 
 def _mo_invariants(mo, trace, k, out):
-    c = copy.deepcopy(mo)
+    _mo_invariants_on(copy.deepcopy(mo), trace, k, out)
+    n0 = len(out)
+    _mo_invariants_on(mo, trace, k, out)  # the object itself: values cached inside it are not part of a deep copy
+    del out[n0 + 1:]
+
+
+def _mo_invariants_on(c, trace, k, out):
     kind = c.kind
     if kind == "generalized":
         for name in ("occsa", "occsb", "coeffsa", "coeffsb", "energiesa", "energiesb", "irrepsa", "irrepsb", "spinpol"):
@@ -299,7 +314,13 @@ def shell_invariants(sh, trace, k, out):
 
 
 def _shell_invariants(sh, trace, k, out):
-    c = copy.deepcopy(sh)
+    _shell_invariants_on(copy.deepcopy(sh), trace, k, out)
+    n0 = len(out)
+    _shell_invariants_on(sh, trace, k, out)  # the object itself (see _mo_invariants)
+    del out[n0 + 1:]
+
+
+def _shell_invariants_on(c, trace, k, out):
     nexp, ncon = c.coeffs.shape if c.coeffs.ndim == 2 else (None, None)
     if c.coeffs.ndim != 2 or len(c.angmoms) != ncon or len(c.kinds) != ncon or len(c.exponents) != nexp:
         out.append(_v("J7_shape_accepted", f"shell with angmoms {len(c.angmoms)}, kinds {len(c.kinds)}, exponents {len(c.exponents)}, coeffs {c.coeffs.shape}", trace, k))
@@ -419,7 +440,66 @@ def run_ops(trace, with_observer=True):
     return out, mut, info
 
 
+def setup_worker():
+    from sim import sched
+
+    sched.MONITOR.install(common.REPO)
+
+
+BACKGROUND = [{"file": "h2o_sto3g.wfn"}, {"file": "he_s_orbital.wfn"}, {"file": "lih_cation_uhf.wfn"}, {"file": "h2o_sto3g.fchk"},
+              {"file": "h2_sto3g.mkl"}, {"file": "lih_cation_uhf.wfx"}, {"file": "h2o.molden.input"}, {"file": "water.xyz"}]
+
+
+def run_threads(trace, rng=None):
+    """Histories on distinct MolecularOrbitals / Shell objects in real threads under the baton scheduler, optionally
+    next to a client that loads a file through the API: every client's outcomes must equal its solo run."""
+    from sim import sched
+
+    hists = trace["histories"]
+    solo = [run_ops(h, True)[1] for h in hists]
+    policy = tuple(trace["policy"])
+    if trace.get("schedule") is not None:
+        policy = ("replay", trace["schedule"])
+    baton = sched.Baton(rng, policy, horizon=3000)
+    got = [None] * len(hists)
+
+    def make(i):
+        def body():
+            got[i] = run_ops(hists[i], True)[1]
+        return body
+
+    fns = [make(i) for i in range(len(hists))]
+    bg = trace.get("background")
+    if bg:
+        def background():
+            import warnings
+
+            import iodata
+
+            with warnings.catch_warnings():
+                warnings.simplefilter("ignore")
+                try:
+                    iodata.load_one(os.path.join(common.DATA, bg["file"]), fmt=bg.get("fmt"))
+                except Exception:  # noqa: BLE001
+                    pass
+        fns.append(background)
+    with sched.Steps(sched=baton) as st:
+        done = baton.run(fns)
+    out = []
+    for c in done[: len(hists)]:
+        if c.error is not None:
+            out.append({"cls": "T0_client_died", "sig": f"T0_client_died|{type(c.error).__name__}",
+                        "msg": f"client {c.idx} died under interleaving: {type(c.error).__name__}: {c.error}", "trace": copy.deepcopy(trace)})
+    for i, (a, b) in enumerate(zip(got, solo)):
+        if a is not None and a != b:
+            out.append({"cls": "T1_outcome_differs_under_interleaving", "sig": "T1_outcome_differs_under_interleaving|",
+                        "msg": f"client {i}: mutator outcomes {a} under interleaving but {b} alone (distinct objects!)", "trace": copy.deepcopy(trace)})
+    return out, baton, st.steps
+
+
 def execute(trace):
+    if "histories" in trace:
+        return run_threads(trace, rng=common.rng_for("replay"))[0]
     return run_ops(trace, True)[0]
 
 
@@ -498,6 +578,9 @@ def plan(tier, seed, args):
         for _ in range(n):
             tasks.append({"run": run, "seed": seed, "tier": tier, "n": 40})
             run += 1
+        for _ in range(n // 6):
+            tasks.append({"run": run, "seed": seed, "tier": tier, "threads": 10})
+            run += 1
     return tasks
 
 
@@ -507,6 +590,28 @@ def run_task(task):
     viols = []
     dig = []
     sample = None
+    if "threads" in task:
+        for j in range(task["threads"]):
+            r = rng.random()
+            policy = ["random", rng.choice([0.01, 0.05, 0.2])] if r < 0.6 else ["newline", 0.01, rng.choice([0.1, 0.3])] if r < 0.8 else ["pct", rng.choice([1, 2, 3])]
+            trace = {"histories": [gen_mo_trace(rng) if rng.random() < 0.7 else gen_shell_trace(rng) for _ in range(rng.choice([1, 2, 2]))],
+                     "policy": policy, "schedule": None, "target": "threads"}
+            if rng.random() < 0.7:
+                trace["background"] = rng.choice(BACKGROUND)
+            srng = common.rng_for(task["seed"], ID, task["run"], j, "schedule")
+            vs, baton, steps = run_threads(trace, srng)
+            for v in vs:
+                v["trace"]["schedule"] = baton.replay_list()
+            viols.extend(vs)
+            nsw = sum(1 for sw in baton.switches if sw[0] > 0)
+            stats.inc("outcome.threaded_runs")
+            stats.inc("probe.switches_inside_iodata", nsw)
+            stats.inc("steps", steps)
+            if nsw:
+                stats.add("nontrivial", common.short(common.jdump(trace) + repr(baton.switches)))
+            stats.add("schedules", common.short(repr(baton.switches)))
+            dig.append((common.short(common.jdump(trace)), len(vs), common.short(repr(baton.switches))))
+        return {"n": task["threads"], "digest": common.short(repr(dig)), "violations": viols, "stats": stats.export(), "sample": None}
     if "exh" in task:
         traces = exhaustive_histories(task["tier"], *task["exh"])
         stats.add("exhaustive_spaces", _spaces(task["tier"])[task["exh"][0]][0])
@@ -538,6 +643,10 @@ def run_task(task):
 
 def shrink(trace, still_fails):
     t = copy.deepcopy(trace)
+    if "histories" in t:
+        if t.get("schedule"):
+            t["schedule"] = shr.ddmin_list(t["schedule"], lambda sc: still_fails({**t, "schedule": sc}))
+        return t
     head, rest = t["ops"][:1], t["ops"][1:]
     rest = shr.ddmin_list(rest, lambda r: still_fails({**t, "ops": head + r}))
     t["ops"] = head + rest
